@@ -164,6 +164,24 @@ Example C10_entity_under_foreign_address_repaired :
   strictly_accepted (judge minit sinit (snd (run init c10_foreign_address))) = true.
 Proof. vm_compute. split; reflexivity. Qed.
 
+(* Withdrawn requests (FeatureLocal.RemoveRemoteSubscription / RemoveRemoteBinding): a local client
+   feature subscribes and binds to d1:[1]:1, withdraws the subscription (a delete call goes to
+   connection 1, the subscription is forgotten, the binding stays), then the binding; every step is
+   strictly accepted. *)
+Definition c10_withdraw : list op :=
+  [ AddLocalEntity [1%N]; AddLocalFeature [1%N] 1 RClient;
+    Connect 1; DiscoveryReply 1 (tree 1);
+    LocalSubscribe [1%N] 1 (a (Some 1%N) [1%N] 1); LocalBind [1%N] 1 (a (Some 1%N) [1%N] 1);
+    LocalUnsubscribe [1%N] 1 (a (Some 1%N) [1%N] 1);
+    HasLocalSub [1%N] 1 (a (Some 1%N) [1%N] 1); HasLocalBind [1%N] 1 (a (Some 1%N) [1%N] 1);
+    LocalUnbind [1%N] 1 (a (Some 1%N) [1%N] 1); HasLocalBind [1%N] 1 (a (Some 1%N) [1%N] 1) ].
+Example C10_withdrawn_requests :
+  map snd (skipn 6 (snd (run init c10_withdraw))) =
+    [ [OCall 1 3 (a (Some 0%N) [0%N] 0) (a (Some 1%N) [0%N] 0); ORetB true]; [ORetB false]; [ORetB true];
+      [OCall 1 4 (a (Some 0%N) [0%N] 0) (a (Some 1%N) [0%N] 0); ORetB true]; [ORetB false] ] /\
+  strictly_accepted (judge minit sinit (snd (run init c10_withdraw))) = true.
+Proof. vm_compute. split; reflexivity. Qed.
+
 (* ---------- "... including while messages of other peers are being processed" ---------- *)
 
 (* Histories may contain [During a b] (Model/StackX.v): while the teardown a of peer p runs
